@@ -56,6 +56,27 @@ def run(tier):
             except UnicodeDecodeError:
                 bad += 1; ck.violation("invalid-utf8", "the file written by penne fuzz tokens is not valid UTF-8", repr(data[:2000])); continue
             files.append(("f%d" % j, data))
+        # a directory that is used again: what is left is the NEW text only (a larger earlier output, or anything else
+        # of that name, is replaced - not overwritten in place)
+        for j, (first, then) in enumerate([(64, 1), (16, 2), (None, 1)]):
+            d = os.path.join(root, "again%d" % j); os.makedirs(d)
+            if first is None:
+                name = os.path.join(d, "fuzzed_tokens.pn")
+                open(name, "wb").write(b"\xff\"'" * 40000)
+            else:
+                subprocess.run([c18.PENNE, "fuzz", "tokens", "--kb", str(first), "--out-dir", d], cwd=root, capture_output=True, timeout=300)
+            p = subprocess.run([c18.PENNE, "fuzz", "tokens", "--kb", str(then), "--out-dir", d], cwd=root, capture_output=True, timeout=300)
+            outs = sorted(glob.glob(os.path.join(d, "**", "*.pn"), recursive=True))
+            if p.returncode != 0 or len(outs) != 1:
+                bad += 1; ck.violation("cli-fuzz-failed", "penne fuzz tokens --kb %d into a directory used before: exit %d, %d files" % (then, p.returncode, len(outs)), p.stderr.decode(errors="replace")[-1500:]); continue
+            data = open(outs[0], "rb").read(); ncli += 1
+            if len(data) > then * 1096 * 2 + 4096:
+                bad += 1; ck.violation("stale-output", "penne fuzz tokens --kb %d into a directory that already held an output of %s: the file has %d bytes (the old content was overwritten in place, not replaced)" % (then, "%d KiB" % first if first else "other content", len(data)),
+                                       "penne fuzz tokens --kb %s --out-dir D; penne fuzz tokens --kb %d --out-dir D\nfile size: %d" % (first, then, len(data))); continue
+            try: data.decode("utf-8")
+            except UnicodeDecodeError:
+                bad += 1; ck.violation("invalid-utf8", "the file written by penne fuzz tokens into a used directory is not valid UTF-8", repr(data[:2000])); continue
+            files.append(("g%d" % j, data))
         lexed = C.run_harness("lex", files, ck.work + "/clilex", timeout=1800) if files else {}
         for cid, data in files:
             f = lexed.get(cid, ["missing", "missing"])
